@@ -1,4 +1,5 @@
 import Adlt.Remote.Model
+import Adlt.Remote.TimeLookup
 /-! The command dispatcher as a state machine: one reply per command; which ids are usable when. -/
 namespace Rem
 
@@ -91,7 +92,7 @@ def Srv.step (s : Srv) (files : List RMsg) : Cmd → Srv × Reply
     match s.file, s.find k with
     | some ms, some st =>
       -- first file position whose time (`RMsg.time`) is not before t
-      let p := (ms.takeWhile fun m => m.time < t * 1000).length
+      let p := timePos ms (t * 1000)
       (s, .ok s!"pos{lowerBound (st.seq ms st.stop) p}")
     | _, _ => (s, .err)
   | .lookupBad _ => (s, .err)
